@@ -3,7 +3,8 @@
   calls, over a list zipper: `out` = out_info[0 .. out_len], `inp` = info[idx .. len].
   A glyph carries (code point, cluster, hangul_shaping_feature); masks / glyph flags are NOT modelled
   (`unsafe_to_break*` calls only write flag bits; `set_cluster` additionally clears flag bits).
-  `none` = the Rust code would panic (index out of bounds / failed assert); see `step_isSome` in Lemmas.
+  `none` = the Rust code would panic (index out of bounds / failed assert) or loop forever; `preprocess_keys`
+  (Lemmas, = `C12_model_refines_spec`) shows that this never happens.
   Not modelled: `make_room_for`/`ensure` refusing (needs out_len + n > max_len ≥ 64·len; the shaper at most
   triples the text), and the in-place vs. separate out-buffer representation (list zipper abstracts it).
   Core Lean only.
@@ -277,7 +278,7 @@ def step (c : Cfg) (st : St) : Option St :=
 
 -- src: ot_shaper_hangul.rs::preprocess_text_hangul, the `while buffer.idx < buffer.len` loop
 -- The recursion is justified by the loop's own variant `len - idx`: an iteration that does not consume
--- input would be an endless loop in Rust and is a `none` here (`run_progress` in Lemmas shows it never happens).
+-- input would be an endless loop in Rust and is a `none` here (`run_sim` in Lemmas shows it never happens).
 def run (c : Cfg) (st : St) : Option St :=
   if st.inp = [] then some st
   else
